@@ -548,7 +548,7 @@ class TypeInstance(Type):
                 return True
             if (b.upper or b.lower) and not a.basic:
                 return False
-            if b.upper and b.upper.subtype(a.operator, strict=True):
+            if b.upper and not a.operator.subtype(b.upper):
                 return False
             if b.lower and (b.lower.subtype(a.operator) is False) and not (
                     subtype and a.operator.subtype(b.lower)):
@@ -560,7 +560,7 @@ class TypeInstance(Type):
                 return True
             if (a.upper or a.lower) and not b.basic:
                 return False
-            if a.lower and b.operator.subtype(a.lower, strict=True):
+            if a.lower and not a.lower.subtype(b.operator):
                 return False
             if a.upper and (a.upper.subtype(b.operator) is False) and not (
                     subtype and b.operator.subtype(a.upper)):
